@@ -107,10 +107,13 @@ theorem occStep_ok (n : Bytes) (b : Bool) (hb : b = Spec.Metadata.isBinName n) (
       cases hw : valueFromBytes (encOf b) raw with
       | none => intro ev hev; simp at hev; subst hev; rfl
       | some w =>
-        intro ev hev
-        rcases List.mem_cons.mp hev with rfl | h2
-        · exact evOk_wrote b n raw w hb hw
-        · exact evOk_vals _ b n hb _ ev h2
+        simp only []
+        split
+        · intro ev hev; simp at hev; subst hev; rfl
+        · intro ev hev
+          rcases List.mem_cons.mp hev with rfl | h2
+          · exact evOk_wrote b n raw w hb hw
+          · exact evOk_vals _ b n hb _ ev h2
     | append raw =>
       simp only []
       cases hw : valueFromBytes (encOf b) raw with
